@@ -26,6 +26,7 @@ type Obligation struct {
 	Pos     string   // file:line of the instruction
 	enc     *Enc
 	Segment string
+	Block   *ssa.BasicBlock
 	Raw     string // complete SMT-LIB script (string track); enc is nil
 	Replay  func(r *OblResult, repo, verifDir string) (string, bool)
 }
@@ -42,6 +43,7 @@ type Enc struct {
 	funDecls  map[string]string
 	funOrder  []string
 	asserts   []string
+	assertBlk []*ssa.BasicBlock // block each assertion was emitted for (nil: global)
 	obls      []*Obligation
 	ver       map[string]int // newest version per heap (for fresh naming)
 	cur       map[string]int // current version per heap
@@ -56,6 +58,14 @@ type Enc struct {
 	curIdx   int
 	errs     []string
 	dec0     map[*ssa.BasicBlock]string // value of each loop's variant at its header
+	loopPre  map[*ssa.BasicBlock]map[string]int // heap versions at entry to each loop (for pre(e))
+	letLevel map[string]int                     // quantifier depth at which each macro let-name was introduced
+	opaque   map[string]string                  // opaque define @ heap signature -> function symbol
+	refVals  map[string][]string                // heap name -> reference terms of SSA values seen so far that index it
+	refSeen  map[string]bool
+	refBlk   map[string]*ssa.BasicBlock // block in which a registered reference term was first seen
+	ancCache map[*ssa.BasicBlock]map[*ssa.BasicBlock]bool
+	heapLog  map[string]bool                    // when non-nil: heap terms read during elaboration
 }
 
 func (e *Enc) errorf(f string, a ...interface{}) {
@@ -82,7 +92,10 @@ func (e *Enc) declareFun(name string, args []string, ret string) string {
 	return name
 }
 
-func (e *Enc) assume(s string) { e.asserts = append(e.asserts, s) }
+func (e *Enc) assume(s string) {
+	e.asserts = append(e.asserts, s)
+	e.assertBlk = append(e.assertBlk, e.curBlock)
+}
 
 func (e *Enc) freshName(base string) string {
 	e.fresh++
@@ -150,12 +163,98 @@ func (e *Enc) val(v ssa.Value) string {
 		e.errorf("tuple value %s used directly", v.Name())
 		return "nil"
 	}
-	return e.declare(e.vname(v), e.w.sortOf(v.Type()))
+	n := e.vname(v)
+	if _, ok := e.decls[n]; !ok {
+		e.declare(n, e.w.sortOf(v.Type()))
+		e.regVal(n, v.Type())
+	}
+	return n
+}
+
+// regVal registers the references inside a value so that every later heap
+// update can state the (always valid) read-over-write instance for it.
+func (e *Enc) regVal(term string, t types.Type) {
+	w := e.w
+	add := func(h, ref string) {
+		k := h + "\x00" + ref
+		if !e.refSeen[k] {
+			e.refSeen[k] = true
+			e.refVals[h] = append(e.refVals[h], ref)
+			e.refBlk[k] = e.curBlock
+		}
+	}
+	switch u := t.Underlying().(type) {
+	case *types.Slice:
+		add(w.heapArr(u.Elem()), "(s_arr "+term+")")
+	case *types.Map:
+		add(w.heapMapDom(u), term)
+		add(w.heapMapVal(u), term)
+	case *types.Pointer:
+		switch pu := u.Elem().Underlying().(type) {
+		case *types.Struct:
+			for i := 0; i < pu.NumFields(); i++ {
+				add(w.heapField(u.Elem(), i), term)
+			}
+		case *types.Array:
+			add(w.heapArr(pu.Elem()), term)
+		default:
+			add(w.heapCell(u.Elem()), term)
+		}
+	}
+}
+
+// ancestors: blocks from which b is reachable in the acyclic CFG (back edges removed), incl. b
+func (e *Enc) ancestors(b *ssa.BasicBlock) map[*ssa.BasicBlock]bool {
+	if b == nil {
+		return nil
+	}
+	if a, ok := e.ancCache[b]; ok {
+		return a
+	}
+	anc := map[*ssa.BasicBlock]bool{b: true}
+	stack := []*ssa.BasicBlock{b}
+	for len(stack) > 0 {
+		x := stack[len(stack)-1]
+		stack = stack[:len(stack)-1]
+		for _, p := range x.Preds {
+			if e.fv.isBackEdge(p, x) || anc[p] {
+				continue
+			}
+			anc[p] = true
+			stack = append(stack, p)
+		}
+	}
+	e.ancCache[b] = anc
+	return anc
+}
+
+// storeRef: H' = store(H, ref, inner), plus the read-over-write instance for
+// every reference value seen so far (valid array-theory lemmas, stated ground
+// so that no chain of array axioms has to be discovered by the solver).
+func (e *Enc) storeRef(h, ref, inner string) {
+	old := e.H(h)
+	nw := e.bump(h)
+	e.assume(fmt.Sprintf("(= %s (store %s %s %s))", nw, old, ref, inner))
+	anc := e.ancestors(e.curBlock)
+	for _, x := range e.refVals[h] {
+		if x == ref {
+			continue
+		}
+		if b := e.refBlk[h+"\x00"+x]; b != nil && anc != nil && !anc[b] {
+			continue // defined off every path to this block
+		}
+		e.assume(fmt.Sprintf("(=> (not (= %s %s)) (= (select %s %s) (select %s %s)))", ref, x, nw, x, old, x))
+	}
 }
 
 func (e *Enc) tupleVal(v ssa.Value, i int) string {
 	tt := v.Type().(*types.Tuple)
-	return e.declare(q(fmt.Sprintf("v.%s.%d", v.Name(), i)), e.w.sortOf(tt.At(i).Type()))
+	n := q(fmt.Sprintf("v.%s.%d", v.Name(), i))
+	if _, ok := e.decls[n]; !ok {
+		e.declare(n, e.w.sortOf(tt.At(i).Type()))
+		e.regVal(n, tt.At(i).Type())
+	}
+	return n
 }
 
 func (e *Enc) constTerm(c *ssa.Const) string {
@@ -233,7 +332,7 @@ func (e *Enc) ptrOf(v ssa.Value) *Ptr {
 		switch u := x.X.Type().Underlying().(type) {
 		case *types.Slice:
 			s := e.val(x.X)
-			return &Ptr{kind: pElem, heap: e.w.heapArr(u.Elem()), ref: "(s_arr " + s + ")", idx: fmt.Sprintf("(+ (s_off %s) %s)", s, e.val(x.Index)), typ: u.Elem()}
+			return &Ptr{kind: pElem, heap: e.w.heapArr(u.Elem()), ref: "(s_arr " + s + ")", idx: fmt.Sprintf("(idx %s %s)", s, e.val(x.Index)), typ: u.Elem()}
 		case *types.Pointer:
 			at := u.Elem().Underlying().(*types.Array)
 			if isInterior(x.X) {
@@ -316,10 +415,9 @@ func (e *Enc) parentStructType(p *Ptr) types.Type { return p.parent.typ }
 func (e *Enc) store(p *Ptr, v string) {
 	switch p.kind {
 	case pField, pCell:
-		e.setHeap(p.heap, fmt.Sprintf("(store %s %s %s)", e.H(p.heap), p.ref, v))
+		e.storeRef(p.heap, p.ref, v)
 	case pElem:
-		h := e.H(p.heap)
-		e.setHeap(p.heap, fmt.Sprintf("(store %s %s (store (select %s %s) %s %s))", h, p.ref, h, p.ref, p.idx, v))
+		e.storeRef(p.heap, p.ref, fmt.Sprintf("(store (select %s %s) %s %s)", e.H(p.heap), p.ref, p.idx, v))
 	case pGlobal:
 		e.setHeap(p.heap, v)
 	case pSub:
@@ -328,7 +426,7 @@ func (e *Enc) store(p *Ptr, v string) {
 		st := p.typ.Underlying().(*types.Struct)
 		for i := 0; i < st.NumFields(); i++ {
 			h := e.w.heapField(p.typ, i)
-			e.setHeap(h, fmt.Sprintf("(store %s %s %s)", e.H(h), p.ref, e.w.structSel(p.typ, i, v)))
+			e.storeRef(h, p.ref, e.w.structSel(p.typ, i, v))
 		}
 	}
 }
@@ -339,10 +437,10 @@ func (e *Enc) wfValue(term string, t types.Type, guard string) {
 	switch u := t.Underlying().(type) {
 	case *types.Slice:
 		facts = append(facts, fmt.Sprintf("(>= (s_len %s) 0)", term), fmt.Sprintf("(>= (s_off %s) 0)", term),
-			fmt.Sprintf("(or (= (s_arr %s) nil) (select %s (s_arr %s)))", term, e.H(heapAlloc), term),
+			fmt.Sprintf("(or (= (s_arr %s) nil) (isalloc %s (s_arr %s)))", term, e.H(heapAlloc), term),
 			fmt.Sprintf("(=> (= (s_arr %s) nil) (= (s_len %s) 0))", term, term))
 	case *types.Pointer, *types.Map, *types.Interface, *types.Signature, *types.Chan:
-		facts = append(facts, fmt.Sprintf("(or (= %s nil) (select %s %s))", term, e.H(heapAlloc), term))
+		facts = append(facts, fmt.Sprintf("(or (= %s nil) (isalloc %s %s))", term, e.H(heapAlloc), term))
 	case *types.Struct:
 		for i := 0; i < u.NumFields(); i++ {
 			switch u.Field(i).Type().Underlying().(type) {
@@ -378,8 +476,8 @@ func (e *Enc) newRef(name string) string {
 	r := e.declare(name, "Ref")
 	a := e.H(heapAlloc)
 	e.assume(fmt.Sprintf("(not (= %s nil))", r))
-	e.assume(fmt.Sprintf("(not (select %s %s))", a, r))
-	e.setHeap(heapAlloc, fmt.Sprintf("(store %s %s true)", a, r))
+	e.assume(fmt.Sprintf("(= (birth %s) %s)", r, a))
+	e.setHeap(heapAlloc, fmt.Sprintf("(+ %s 1)", a))
 	return r
 }
 
@@ -409,7 +507,7 @@ func (e *Enc) oblige(kind, name, goal string, tags []string, src string) {
 	}
 	props, _ := splitTagKinds(tags)
 	e.obls = append(e.obls, &Obligation{Name: name, Fn: funcKey(e.fn), Kind: kind, Tags: props, Prefix: len(e.asserts),
-		Reach: e.reach[e.curBlock], Goal: goal, Src: src, Pos: e.pos(), enc: e, Segment: e.segName})
+		Reach: e.reach[e.curBlock], Goal: goal, Src: src, Pos: e.pos(), enc: e, Segment: e.segName, Block: e.curBlock})
 }
 
 func (e *Enc) safety(what, goal string) {
@@ -433,7 +531,7 @@ func (e *Enc) frameWrite(ref string, what string) {
 	if !e.fv.hasModSpec() {
 		return
 	}
-	goal := fmt.Sprintf("(or (not (select %s %s)) %s)", e.H0(heapAlloc), ref, e.fv.modPred(e, ref))
+	goal := fmt.Sprintf("(or (not (isalloc %s %s)) %s)", e.H0(heapAlloc), ref, e.fv.modPred(e, ref))
 	e.oblige("frame", fmt.Sprintf("frame/%s@%s", what, e.siteLabel()), goal, e.fv.modTags(), "modifies clause of "+funcKey(e.fn))
 }
 
@@ -455,14 +553,26 @@ func (e *Enc) instr(in ssa.Instruction) {
 		case *types.Struct:
 			for i := 0; i < u.NumFields(); i++ {
 				h := w.heapField(et, i)
-				e.setHeap(h, fmt.Sprintf("(store %s %s %s)", e.H(h), r, w.zero(u.Field(i).Type())))
+				e.storeRef(h, r, w.zero(u.Field(i).Type()))
 			}
 		case *types.Array:
 			h := w.heapArr(u.Elem())
-			e.setHeap(h, fmt.Sprintf("(store %s %s %s)", e.H(h), r, e.constArray(w.sortOf(u.Elem()), w.zero(u.Elem()))))
+			// zero-initialise element by element over an otherwise unconstrained
+			// array (only indices 0..N-1 are ever accessible)
+			arr := e.declare(q("arr0."+x.Name()), "(Array Int "+w.sortOf(u.Elem())+")")
+			if u.Len() > 0 {
+				if z := w.zero(u.Elem()); z == "false" || z == "0" || z == "true" {
+					arr = e.constArray(w.sortOf(u.Elem()), z)
+				} else {
+					for i := int64(0); i < u.Len() && i < 512; i++ {
+						arr = fmt.Sprintf("(store %s %d %s)", arr, i, z)
+					}
+				}
+			}
+			e.storeRef(h, r, arr)
 		default:
 			h := w.heapCell(et)
-			e.setHeap(h, fmt.Sprintf("(store %s %s %s)", e.H(h), r, w.zero(et)))
+			e.storeRef(h, r, w.zero(et))
 		}
 	case *ssa.FieldAddr:
 		if !isInterior(x.X) {
@@ -573,12 +683,17 @@ func (e *Enc) instr(in ssa.Instruction) {
 		mt := x.Type().Underlying().(*types.Map)
 		h := w.heapMapDom(mt)
 		w.heapMapVal(mt)
-		e.setHeap(h, fmt.Sprintf("(store %s %s ((as const (Array %s Bool)) false))", e.H(h), r, w.sortOf(mt.Key())))
+		e.storeRef(h, r, fmt.Sprintf("((as const (Array %s Bool)) false)", w.sortOf(mt.Key())))
 	case *ssa.MakeSlice:
 		st := x.Type().Underlying().(*types.Slice)
 		r := e.newRef(q("arr." + x.Name()))
 		h := w.heapArr(st.Elem())
-		e.setHeap(h, fmt.Sprintf("(store %s %s %s)", e.H(h), r, e.constArray(w.sortOf(st.Elem()), w.zero(st.Elem()))))
+		if c, ok := x.Len.(*ssa.Const); ok && c.Int64() == 0 {
+			// empty slice: contents irrelevant
+			e.storeRef(h, r, e.declare(q("arr0."+x.Name()), "(Array Int "+w.sortOf(st.Elem())+")"))
+		} else {
+			e.storeRef(h, r, e.constArray(w.sortOf(st.Elem()), w.zero(st.Elem())))
+		}
 		e.safety("makeslice-len", fmt.Sprintf("(>= %s 0)", e.val(x.Len)))
 		e.defVal(x, fmt.Sprintf("(mk_slice %s 0 %s)", r, e.val(x.Len)))
 	case *ssa.MakeClosure:
@@ -590,8 +705,8 @@ func (e *Enc) instr(in ssa.Instruction) {
 		e.safety("nil-map-write", fmt.Sprintf("(not (= %s nil))", m))
 		e.frameWrite(m, "mapupdate")
 		hd, hv := w.heapMapDom(mt), w.heapMapVal(mt)
-		e.setHeap(hd, fmt.Sprintf("(store %s %s (store (select %s %s) %s true))", e.H(hd), m, e.H(hd), m, k))
-		e.setHeap(hv, fmt.Sprintf("(store %s %s (store (select %s %s) %s %s))", e.H(hv), m, e.H(hv), m, k, v))
+		e.storeRef(hd, m, fmt.Sprintf("(store (select %s %s) %s true)", e.H(hd), m, k))
+		e.storeRef(hv, m, fmt.Sprintf("(store (select %s %s) %s %s)", e.H(hv), m, k, v))
 	case *ssa.Range:
 		switch u := x.X.Type().Underlying().(type) {
 		case *types.Map:
